@@ -222,7 +222,7 @@ Fixpoint strip_loop (data : bytes) (acc : bytes) : res bytes :=
     else if negb (c =? c_bsl) then strip_loop t (c :: acc)
     else
       match t with
-      | [] => Panic (wd "commands.StripDomain")            (* data[1] with len(data) == 1 *)
+      | [] => Ok (rev acc)                                 (* a lone backslash at the end carries nothing *)
       | a :: t1 =>
         match t1 with
         | b :: d :: t' =>
@@ -234,14 +234,16 @@ Fixpoint strip_loop (data : bytes) (acc : bytes) : res bytes :=
       end
   end.
 
+(* the suffix test and cut of StripDomain, for ASCII strings *)
+Definition cut_domain (data dom : bytes) : bytes :=
+  let suf := c_dot :: map lower_ascii dom ++ [c_dot] in
+  if has_suffix (map lower_ascii data) suf
+  then firstn (length data - (length dom + 2)) data else data.
+
 (* strings.ToLower is modelled for ASCII strings only (what UnpackDomainName produces, and what a
    well-formed domain is); anything else is reported as outside the model. *)
 Definition strip_domain (data dom : bytes) : res bytes :=
-  if all_ascii data && all_ascii dom then
-    let suf := c_dot :: map lower_ascii dom ++ [c_dot] in
-    let data' := if has_suffix (map lower_ascii data) suf
-                 then firstn (length data - (length dom + 2)) data else data in
-    strip_loop data' []
+  if all_ascii data && all_ascii dom then strip_loop (cut_domain data dom) []
   else Err (wd "unmodelled").
 
 (* commands.ComposeRequest for a message with one question *)
